@@ -1,7 +1,10 @@
 """C05 — event delivery order, halting and unsubscription are exact (DESIGN §5 C05).
 
-A case is one operation history on one or two fresh event sources:
-  {"sources":[{"declared":[et..], "acceptAll":bool, "lazy":bool}, ..], "ops":[action..], "scripts":[[hid, [script..]], ..]}
+A case is one operation history on one to three fresh event sources:
+  {"sources":[{"declared":[et..], "acceptAll":bool, "lazy":bool, "kind", "how", "cls", "base"}, ..], "ops":[action..], "scripts":[[hid, [script..]], ..]}
+("how": where the declaration lives -- class attribute, _eventMixin_addEvent(s) on the instance, instance attribute; "cls"/"base": sources
+that are instances of one class / of a class and its subclass, each with its OWN declared set; the model only sees declared/acceptAll/lazy.
+A "decl" action changes a source's declaration in the middle of a history; such histories are checked by the oracle alone.)
 (every action names its source with "s"; event type numbers are real classes with inheritance, see PARENT)
 with the action / script / return-value vocabulary of lean/Drivers/C05.lean (the case *is* the driver request, plus
 optional "via"/"v" fields that select which of several equivalent Python spellings / concrete return values is used).
@@ -192,7 +195,9 @@ class C05(Check):
                    "declared event classes have distinct __name__s (by-name subscription is otherwise dict-order dependent)",
                    "an owner of weak handlers is not released while one of its own methods is executing (CPython would keep it alive until the "
                    "method returns; harness and model both treat such a drop as a no-op); any other moment is allowed, also mid-delivery",
-                   "single-threaded; sources interact only through handlers and the global event-id counter"]
+                   "single-threaded; sources interact only through handlers and the global event-id counter",
+                   "'declares' = the contents of the source's _eventMixin_events at the moment of the call (instance attribute if there is one, "
+                   "else the class's), as pox.openflow.nicira relies on when it adds RoleReply to a live connection's set"]
     design_ref = "DESIGN.md §5 C05"
     technique = ("Lean 4 proof (invariants of a small-step machine with an explicit stack of delivery frames, for all handler behaviours and "
                  "all histories) + differential correspondence of the compiled model against real EventMixin objects with scripted handlers "
@@ -213,7 +218,9 @@ class C05(Check):
                   "after fixes D01 and D28) and this harness. The theorems are about the model; the run ties it to the code on exhaustive small "
                   "histories and random histories of up to 80 operations on one or two sources with re-entrant, cross-source scripts. Event types "
                   "are opaque identities in the model; the harness realises them as a class hierarchy (Ev3(Ev0), Ev4(Ev2), Ev5(Ev3)).")
-    rule = ("case = 1-2 sources (declared set over 6 event classes with inheritance, accept-all, lazily initialised) + operation history (subscribe "
+    rule = ("case = 1-3 sources (declared set over 6 event classes with inheritance, accept-all, lazily initialised; declared on the class, through "
+            "_eventMixin_addEvent(s) or as an instance attribute; unrelated classes, instances of one class, base class and subclass, each with its own "
+            "declared set; in oracle-only histories the declaration also grows / is replaced on the way) + operation history (subscribe "
             "with priority/once/weak/by-name/autoBind, unsubscribe in all 5 argument forms, raise in instance/class form with and without error "
             "suppression, clear, count, removeListeners, autoBind with method-name prefixes, owner collection also from inside handlers; every op names its source) + per-handler scripts (event.halt assignment, nested actions "
             "on any source, return value); corpus = hand-written seeds + every history of <= 3 ops (at least one subscribe and one raise) over a "
@@ -398,6 +405,8 @@ class C05(Check):
                 for e in evs: s_._eventMixin_addEvent(e)
             elif how == 3: s_._eventMixin_events = decl
             srcs.append(s_)
+        # what each source declares right now, kept by the harness (a "decl" action changes it in the middle of a history)
+        decl_now = [True if sd["acceptAll"] else sorted(sd["declared"]) for sd in case["sources"]]
         # listener ids are compared relative to the next id the library will hand out; found by subscribing once to a throw-away source
         # (not by reading a private counter: a library that keeps its counter elsewhere is the same library)
         _probe = type("ProbeSrc", (rv.EventMixin,), {"_eventMixin_events": True})()
@@ -517,8 +526,8 @@ class C05(Check):
                     elif via == 6: r = src.addListenerByName("Ev%d" % et, h, once_v, weak is not None, prio_v)
                     else: r = src.addListener(Ev[et], h, **kw)
                 except BaseException as e:       # scripted SystemExit / KeyboardInterrupt must not end the run
-                    addchecks.append([i, et, self._kind(e), before == dump(i)]); raise
-                addchecks.append([i, et, "ok", None])
+                    addchecks.append([i, et, self._kind(e), before == dump(i), decl_now[i]]); raise
+                addchecks.append([i, et, "ok", None, decl_now[i]])
                 subs.append([i, r[1] - base, r[0].idx, hid, bool(a["once"]), weak])
                 return ["pair", r[0].idx, r[1] - base]
             if op == "bind":
@@ -548,7 +557,7 @@ class C05(Check):
                 elif via % 3 == 2: r = sink.listenTo(src, prefix, w, pr) if via < 3 else sink.listenTo(src, prefix=prefix, weak=w, priority=pr)
                 else: r = rv.autoBindEvents(sink, src, prefix, w, pr) if via < 3 else rv.autoBindEvents(sink, src, prefix=prefix, weak=w, priority=pr)
                 for t, e in r: subs.append([i, e - base, t.idx, hb + 10 * q + t.idx, False, weak])
-                bindchecks.append([i, [t.idx for t, _ in r], [et for p_, et in meths if p_ == q]])
+                bindchecks.append([i, [t.idx for t, _ in r], [et for p_, et in meths if p_ == q], decl_now[i]])
                 return ["pairs", [[t.idx, e - base] for t, e in r]]
             if op == "rmm":
                 ps = [(Ev[et], base + eid) for et, eid in a["pairs"]]
@@ -573,6 +582,26 @@ class C05(Check):
                     rmchecks.append([form, was, present(i, pred, scope), self._kind(e)]); raise
                 rmchecks.append([form, was, present(i, pred, scope), "ok"])
                 return bool(r)
+            if op == "decl":
+                # the source declares more events in the middle of its life (dv 0: _eventMixin_addEvents, 1: _eventMixin_addEvent one by
+                # one, 2: a new container with the old and the new ones assigned to the instance) or replaces its declaration (dv 3)
+                # dv 4: the instance's own set grows in place, as pox.openflow.nicira does (`connection._eventMixin_events.add(RoleReply)`)
+                ets, dv = a["ets"], a.get("dv", 0) % 5
+                if decl_now[i] is True: return "unit"
+                own = vars(src).get("_eventMixin_events")
+                if dv in (0, 1, 4) and not isinstance(own, set): dv = 2            # _eventMixin_addEvent needs the instance's own set
+                new = sorted(set(ets)) if dv == 3 else sorted(set(decl_now[i]) | set(ets))
+                if dv == 0: src._eventMixin_addEvents([Ev[t] for t in ets])
+                elif dv == 1:
+                    for t in ets: src._eventMixin_addEvent(Ev[t])
+                elif dv == 4:
+                    for t in ets: own.add(Ev[t])
+                else:
+                    cur = getattr(src, "_eventMixin_events", None)
+                    mk = type(cur) if type(cur) in (set, list, tuple, frozenset) else set
+                    src._eventMixin_events = mk(Ev[t] for t in new)
+                decl_now[i] = new
+                return "unit"
             if op == "clear":
                 src.clearHandlers(); return "unit"
             if op == "count":
@@ -607,7 +636,7 @@ class C05(Check):
                     reused = reg.get(a["f"]) if form == "again" else (cur_events[-1] if cur_events else None)
                     form = "inst"
                     if reused is not None: et = type(reused).idx
-                snaps[fid] = {"s": i, "et": et, "noerr": a["noerr"], "form": form, "pos": len(log), "reused": reused is not None,
+                snaps[fid] = {"s": i, "et": et, "noerr": a["noerr"], "form": form, "pos": len(log), "reused": reused is not None, "decl": decl_now[i],
                               "snap": [entry_view(x) for x in getattr(src, "_eventMixin_handlers", {}).get(Ev[et], [])], "result": None}
                 f = src.raiseEventNoErrors if a["noerr"] else src.raiseEvent
                 xa = a.get("xa", 0) % 3
@@ -656,7 +685,12 @@ class C05(Check):
                 "snaps": {str(k): v for k, v in snaps.items()}, "rmchecks": rmchecks, "addchecks": addchecks, "drops": drops, "subs": subs, "bindchecks": bindchecks, "deaths": deaths, "junkchecks": junkchecks, "argchecks": argchecks, "srcchecks": srcchecks}
 
     # ------------------------------------------------------------------ model side
+    @staticmethod
+    def _actions(case):
+        return list(case["ops"]) + [a for _, sl in case["scripts"] for sc_ in sl for a, _ in sc_["acts"]]
+
     def model_request(self, case):
+        if any(a["op"] == "decl" for a in self._actions(case)): return None      # declarations are fixed in the model: oracle only
         return {"variant": self.variant, "sources": case["sources"], "fuel": FUEL, "ops": case["ops"], "scripts": case["scripts"]}
 
     VIEW = ("log", "frames", "final", "count", "inited")
@@ -693,7 +727,7 @@ class C05(Check):
     def oracle(self, case, obs):
         log, snaps = obs["log"], {int(k): v for k, v in obs["snaps"].items()}
         S_ = case["sources"]
-        declared = lambda i, et: S_[i]["acceptAll"] or et in S_[i]["declared"]          # exact type identity
+        declared = lambda then, et: then is True or et in then          # exact type identity; `then` = what the source declared at that moment
         sortedok = lambda l: all((a[0], -a[3]) > (b[0], -b[3]) for a, b in zip(l, l[1:]))
         # order of every handler list (as seen at every raise and at the end)
         for fid, s in sorted(snaps.items()):
@@ -725,7 +759,7 @@ class C05(Check):
         def ends_ok(ptr_):
             # cheap necessary condition used to choose between alignments: every delivery's unreached tail is excusable or cut off
             for fid_, t in snaps.items():
-                if not declared(t["s"], t["et"]): continue
+                if not declared(t["decl"], t["et"]): continue
                 R_, C_ = rets.get(fid_, []), calls.get(fid_, [])
                 tail_ = t["snap"][ptr_.get(fid_, 0):]
                 if all(dead_at(fid_, e_, len(log)) or spent(fid_, e_) for e_ in tail_): continue
@@ -776,12 +810,12 @@ class C05(Check):
             S, C, R = s["snap"], calls.get(fid, []), rets.get(fid, [])
             want = [e[1] for e in S]
             got = [h for _, h, _ in C]
-            if not declared(s["s"], s["et"]):
+            if not declared(s["decl"], s["et"]):
                 # an undeclared type has no subscribers; the instance form must be refused outright, the class form never gets to an event
                 if got: return "undeclared: a handler was invoked for an undeclared event type"
                 if s["form"] == "inst" and s["result"] != ["exc", "revent"]:
                     return "undeclared: raising an instance of an undeclared event type was not rejected (%s)" % (
-                        "subclass of a declared type" if self._has_declared_ancestor(S_[s["s"]], s["et"]) else "unrelated type")
+                        "subclass of a declared type" if s["decl"] is not True and self._has_declared_ancestor({"declared": s["decl"]}, s["et"]) else "unrelated type")
                 if s["form"] == "cls" and s["result"] not in ("none", ["exc", "revent"]):
                     return "undeclared: class-form raise of an undeclared event type produced an event"
                 continue
@@ -853,14 +887,14 @@ class C05(Check):
                 if eid not in final[si].get(et, ()):
                     return "unsubscribe: subscription %d (handler %d) vanished although nothing unsubscribed it" % (eid, hid)
         # subscription by method name: exactly the sink's methods with the given prefix whose event the source declares, in name order
-        for si, got_ets, named in obs["bindchecks"]:
-            if got_ets != [et for et in named if declared(si, et)]:
+        for si, got_ets, named, then in obs["bindchecks"]:
+            if got_ets != [et for et in named if declared(then, et)]:
                 return "bind: autoBindEvents subscribed %s, the sink's methods with that prefix name %s" % (got_ets, named)
         # undeclared subscription
-        for si, et, res, unchanged in obs["addchecks"]:
-            if not declared(si, et) and res != "revent":
+        for si, et, res, unchanged, then in obs["addchecks"]:
+            if not declared(then, et) and res != "revent":
                 return "undeclared: subscription to an undeclared event type was not rejected (%s)" % res
-            if not declared(si, et) and not unchanged: return "undeclared: rejected subscription changed the handler lists"
+            if not declared(then, et) and not unchanged: return "undeclared: rejected subscription changed the handler lists"
         # weak handlers go with their owner
         for o, pos, st in obs["drops"]:
             if any(e[4] == o or e[4] == "dead" for f in st for _, l in f for e in l): return "weak: handler of a collected owner is still subscribed"
@@ -1057,6 +1091,18 @@ class C05(Check):
                 for first in (0, 1):
                     for k, via in enumerate((0, 2, 5) if acc1 else (0, 1, 2, 3, 4, 6)):
                         S.append(case(cross(first, via, (k + first) % (3 if acc1 else 6)), [(4, [sc(), sc([(add(3, 6, via=via, s=first), True)])])], sources=pair))
+        # a declaration that changes in the middle of a source's life (more events declared in three spellings; the declaration
+        # replaced by a smaller one): every question before and after, on the source itself and on a relative that did not change
+        decl = lambda ets, dv=0, s=0: {"op": "decl", "s": s, "ets": list(ets), "dv": dv}
+        for dv in (0, 1, 2, 4):
+            for via in (0, 1, 2, 3, 4, 6):
+                for k, rel in enumerate(([source([0], how=1), source([0], how=3)], [source([0], cls=1, how=1 + via % 4), source([0], cls=1, how=1 + dv)],
+                                         [source([0], cls=1, how=0), source([0], cls=1, how=0)], [source([0], cls=1), source([0, 1], cls=2, base=1)],
+                                         [source([0], cls=2, base=1, how=4), source([0, 1], cls=1, kind="frozenset")])):
+                    ask = lambda h: [add(1, h, via=via, s=0), add(1, h + 1, via=via, s=1), add(3, h + 2, via=via, s=0), add(3, h, via=via, s=1), add(0, h, via=via, s=0),
+                                     R(1, s=0), R(1, s=1), R(3, "inst", True, s=0), R(3, "cls", s=0), R(3, s=1), R(0, s=0), bind([0, 1, 3], 100 * h, via=(via + h) % 6, s=h % 2)]
+                    S.append(case(ask(1) + [decl([1], dv)] + ask(2) + [decl([3, 1], (dv + 1) % 5)] + ask(3) + [decl([0], 3)] + ask(4) + [decl([0, 5], 3, s=1), decl([], dv, s=1)] + ask(5) + [cnt(0), cnt(1)],
+                                  [(2, [sc(), sc([(decl([3], dv), False), (add(3, 6, via=via, s=0), True), (R(3, s=0), True)])])], sources=rel))
         # three of a family: a base class, a subclass, a subclass of the subclass, each declaring one event more; asked in every order
         fam = [source([0], cls=1), source([0, 1], cls=2, base=1), source([0, 1, 3], cls=3, base=2)]
         fam2 = [source([0], cls=1, how=4), source([0, 1], cls=1, how=1), source([0, 1, 3], cls=2, base=1, how=4)]
@@ -1227,7 +1273,10 @@ class C05(Check):
             return {"op": "rmp", "s": s, "et": rng.choice(ets), "eid": rng.randint(0, ctx["adds"] + 1), "et2": et_or_none()}
         if x < 0.53: return {"op": "rmm", "s": s, "pairs": [[rng.choice(ets), rng.randint(0, ctx["adds"] + 1)] for _ in range(rng.randint(0, 4))], "cv": rng.randint(0, 2)}
         if x < 0.54: return {"op": "clear", "s": s}
-        if x < 0.59: return {"op": "count", "s": s}
+        if x < 0.59:
+            if ctx.get("decl") and x >= 0.57:               # some histories change a declaration on the way (these are checked by the oracle alone)
+                return {"op": "decl", "s": s, "ets": rng.sample(range(N_ET), rng.randint(0, 3)), "dv": rng.choice([0, 1, 2, 4, 0, 1, 2, 4, 3])}
+            return {"op": "count", "s": s}
         if x < 0.63: return {"op": "drop", "s": 0, "o": rng.choice([1, 2, 3] + ctx["sinkowners"])}
         if x < 0.67 and depth == 0 and not ctx["acceptAll"][s]:                     # sinks are bound at top level only (fresh identities)
             if ctx["bindlist"] and rng.random() < 0.3:                              # the same sink object bound once more
@@ -1291,7 +1340,8 @@ class C05(Check):
                 if sources[k]["cls"] is None: sources[k]["cls"] = 5
                 if rng.random() < 0.5: sources[2]["cls"] = sources[k]["cls"]
                 else: sources[2]["cls"] = 6; sources[2]["base"] = sources[k]["cls"]
-        ctx = {"adds": 0, "binds": 0, "sinkowners": [], "bindlist": [], "nsrc": nsrc, "acceptAll": [sd["acceptAll"] for sd in sources]}
+        ctx = {"adds": 0, "binds": 0, "sinkowners": [], "bindlist": [], "nsrc": nsrc, "acceptAll": [sd["acceptAll"] for sd in sources],
+               "decl": rng.random() < 0.1}
         ops = [self.rand_action(rng, ctx, 0) for _ in range(nops)]
         scripts = []
         hids = [1, 2, 3, 4, 5, 6] + [100 * b + 10 * p_ + et for b in range(1, ctx["binds"] + 1) for p_ in (0, 1, 2) for et in range(N_ET)]
